@@ -234,6 +234,18 @@ where T: StructDiff + Fconv + Clone + PartialEq + Debug + SetField + Wire, T::Di
             match r { Some(nf) => { f = nf; line(&mut out, id, &format!("H{}", k), Some(vs(&f.tv(0)))); }
                       None => { line(&mut out, id, &format!("H{}", k), None); break; } }
         }
+        // C06 on a diff that no single call of diff() produces: the diffs of all steps concatenated (long, with several entries
+        // for one field, often next to each other) applied to the first state through each of the four entry points
+        if !states.is_empty() {
+            let s0 = states[0].clone();
+            if let Some(all) = guard(|| { let mut all: Vec<T::Diff> = vec![]; for k in 1..states.len() { all.extend(states[k - 1].diff(&states[k])); } all }) {
+                line(&mut out, id, "HA", guard(|| vs(&s0.clone().apply(all.clone()).tv(0))));
+                line(&mut out, id, "HAR", guard(|| vs(&s0.apply_ref(all.clone()).tv(0))));
+                line(&mut out, id, "HAM", guard(|| { let mut m = s0.clone(); m.apply_mut(all.clone()); vs(&m.tv(0)) }));
+                line(&mut out, id, "HAS", guard(|| { let mut m = s0.clone(); for e in all.clone() { m.apply_single(e); } vs(&m.tv(0)) }));
+                writeln!(out, "{} HN {}", id, all.len()).unwrap();
+            }
+        }
     } else if kind == "WIRE" {
         // WIRE id sid A <a> NS <hex> BC <hex>: bytes produced by the model
         assert_eq!(toks[i], "A"); i += 1; let a = T::fv(&parse_val(toks, &mut i), 0);
